@@ -465,3 +465,234 @@ Definition run_flow (f : flow) : list fobs :=
   let c0 := load_existing b (f_initial f) [] in
   (if b_sync b then [file_of (f_version f) b c0 0 (mkKev KSync [] [])] else [])
     ++ run_ops (f_version f) b c0 1 (f_ops f).
+
+(* ====================================================================================
+   A hook with several bindings, and combined arrays of contexts.
+
+     pkg/hook/controller/hook_controller.go   getIncludeSnapshotsFrom, UpdateSnapshots (with its
+                                              per-call cache of SnapshotsFor)
+     pkg/hook/controller/kubernetes_bindings_controller.go  HandleEvent, SnapshotsFor
+     pkg/hook/controller/schedule_bindings_controller.go    HandleEvent
+     pkg/hook/controller/admission_bindings_controller.go   HandleEvent
+     pkg/hook/controller/conversion_bindings_controller.go  HandleEvent
+     pkg/hook/hook.go                          Run: UpdateSnapshots(all contexts of the task) ->
+                                              ConvertBindingContextList -> Json
+
+   A hook has kubernetes bindings (each with its own monitor = its own informer cache) and
+   schedule / kubernetesValidating / kubernetesMutating / kubernetesCustomResourceConversion
+   bindings.  Binding names are not unique across the binding types: the identity of a binding
+   is (type, name).  The contexts of several tasks of the hook that wait in one queue are
+   handed to ONE execution as one array (C07 is about which tasks are combined); Hook.Run
+   refreshes `snapshots` (and the `objects` of a Synchronization) of EVERY context of the
+   array at that moment and writes one file.
+
+   Kubernetes bindings are addressed by name, as SnapshotsFor and getIncludeSnapshotsFrom do
+   (first binding of that name; two kubernetes bindings of one name are C02's finding F25);
+   the other bindings are addressed by their position in the configuration, and looked up
+   by UpdateSnapshots through (type, name) exactly as getIncludeSnapshotsFrom does.
+   Config v1 only (includeSnapshotsFrom and the other binding kinds do not exist in v0).
+   ==================================================================================== *)
+
+Definition btype_eqb (a b : btype) : bool :=
+  match a, b with
+  | BOnStartup, BOnStartup | BSchedule, BSchedule | BKube, BKube | BValidating, BValidating
+  | BMutating, BMutating | BConversion, BConversion | BOther, BOther => true
+  | _, _ => false
+  end.
+
+(* ScheduleConfig / ValidatingConfig / MutatingConfig / ConversionConfig: what the contexts need *)
+Record obind := mkObind {
+  ob_type : btype;             (* BSchedule | BValidating | BMutating | BConversion *)
+  ob_name : bytes;             (* BindingName *)
+  ob_incl : list bytes;        (* IncludeSnapshotsFrom (after the merge with the group's kubernetes bindings) *)
+  ob_group : bytes }.          (* Group *)
+
+(* what makes the controllers create contexts *)
+Inductive hevent :=
+| HSync (name : bytes)                           (* EnableKubernetesBindings: the Synchronization of that kubernetes binding *)
+| HWatch (name : bytes) (t : wevent) (w : wobj)  (* a watch event delivered to that binding's informer *)
+| HOther (k : nat) (review : json) (from to : bytes).
+    (* the k-th other binding: a crontab tick (schedule), an AdmissionReview request
+       (validating/mutating: [review] is the AdmissionReview), a ConversionReview request for the
+       rule from->to (conversion) *)
+
+Record hcase := mkHcase {
+  hk_kube : list (binding * list wobj);    (* kubernetes bindings with the objects their monitors list at start *)
+  hk_other : list obind;
+  hk_evs : list hevent }.                  (* in the order in which the contexts are appended to the array *)
+
+(* `for _, binding := range kubernetesBindings { if bindingName == binding.BindingName {...; break} }` *)
+Definition kube_named {A} (name : bytes) (l : list (binding * A)) : option (binding * A) :=
+  find (fun p => bytes_eqb name (b_name (fst p))) l.
+
+(* the watch events of one binding's informer, in delivery order *)
+Definition watch_ops (name : bytes) (evs : list hevent) : list (wevent * wobj) :=
+  flat_map (fun ev => match ev with
+                      | HWatch n t w => if bytes_eqb n name then [(t, w)] else []
+                      | _ => []
+                      end) evs.
+
+(* the informer cache of a binding after these watch events *)
+Definition run_cache (b : binding) (ws : list wobj) (ops : list (wevent * wobj)) : cache :=
+  fold_left (fun c op => fst (handle b c (fst op) (snd op))) ops (load_existing b ws []).
+
+(* KubernetesController.SnapshotsFor(name) once the events [done] have been handled *)
+Definition hk_snapshots_for (hc : hcase) (done : list hevent) (name : bytes) : option (list entry) :=
+  match kube_named name (hk_kube hc) with
+  | Some (b, ws) => Some (snapshot (run_cache b ws (watch_ops name done)))
+  | None => None
+  end.
+
+(* hook_controller.go getIncludeSnapshotsFrom(bindingType, bindingName): the first binding of
+   that name in the list OF THAT TYPE *)
+Definition hk_include_from (hc : hcase) (bt : btype) (name : bytes) : list bytes :=
+  match bt with
+  | BKube => match kube_named name (hk_kube hc) with Some p => b_incl (fst p) | None => [] end
+  | BSchedule | BValidating | BMutating | BConversion =>
+      match find (fun o => btype_eqb bt (ob_type o) && bytes_eqb name (ob_name o)) (hk_other hc) with
+      | Some o => ob_incl o
+      | None => []
+      end
+  | BOnStartup | BOther => []
+  end.
+
+(* scheduleBindingsController / AdmissionBindingsController / ConversionBindingsController HandleEvent *)
+Definition ctx_of_obind (o : obind) (review : json) (from to : bytes) : ctx :=
+  let adm := match ob_type o with BValidating | BMutating => true | _ => false end in
+  let conv := match ob_type o with BConversion => true | _ => false end in
+  mkCtx (ob_type o) false (ob_incl o) false (ob_group o) (ob_name o) KEmpty WNone [] []
+        (if adm then Some review else None) (if conv then Some review else None)
+        (if conv then from else []) (if conv then to else []).
+
+(* AdmissionBindingsController: AdmissionLinks is a map keyed by the WebhookId, which
+   hook_manager derives from the binding NAME alone (UpdateIds("", BindingName)) — for validating
+   and mutating bindings alike.  EnableValidatingBindings fills it, then EnableMutatingBindings:
+   a later binding of the same name replaces the link.  An admission event carries only the
+   webhook id, so it is answered with the link that is left.  (Names that differ only in
+   characters SafeURLString rewrites would collide as well; here a name is its own id.) *)
+Definition is_adm (t : btype) : bool := match t with BValidating | BMutating => true | _ => false end.
+
+Definition adm_links (hc : hcase) : list obind :=
+  filter (fun o => btype_eqb (ob_type o) BValidating) (hk_other hc)
+  ++ filter (fun o => btype_eqb (ob_type o) BMutating) (hk_other hc).
+
+Definition adm_link (hc : hcase) (o : obind) : obind :=
+  match find (fun o' => bytes_eqb (ob_name o) (ob_name o')) (rev (adm_links hc)) with
+  | Some o' => o'
+  | None => o
+  end.
+
+(* the contexts one event adds to the array, each with the ResourceIds behind its Objects;
+   [pre] = the events before it *)
+Definition hk_contexts (hc : hcase) (pre : list hevent) (ev : hevent) : list (list bytes * ctx) :=
+  match ev with
+  | HSync name =>
+      match kube_named name (hk_kube hc) with
+      | Some (b, _) => map (fun c => ([], c)) (convert_kube_event b (mkKev KSync [] []))
+      | None => []
+      end
+  | HWatch name t w =>
+      match kube_named name (hk_kube hc) with
+      | Some (b, ws) =>
+          match snd (handle b (run_cache b ws (watch_ops name pre)) t w) with
+          | Some kev => map (fun c => (map fst (ke_objs kev), c)) (convert_kube_event b kev)
+          | None => []
+          end
+      | None => []
+      end
+  | HOther k review from to =>
+      match nth_error (hk_other hc) k with
+      | Some o => [([], ctx_of_obind (if is_adm (ob_type o) then adm_link hc o else o) review from to)]
+      | None => []
+      end
+  end.
+
+(* the array: the contexts of all events, each tagged with the index of its event *)
+Fixpoint hk_collect (hc : hcase) (pre : list hevent) (evs : list hevent) : list (nat * (list bytes * ctx)) :=
+  match evs with
+  | [] => []
+  | ev :: r => map (fun p => (length pre, p)) (hk_contexts hc pre ev) ++ hk_collect hc (pre ++ [ev]) r
+  end.
+
+(* ---- UpdateSnapshots.  [inc] = getIncludeSnapshotsFrom, [sf] = SnapshotsFor ---- *)
+
+(* cache := make(map[string][]ObjectAndFilterResult): a name is read at most once per call *)
+Definition scache := list (bytes * option (list entry)).
+
+(* if _, has := cache[name]; !has { cache[name] = SnapshotsFor(name) } ; cache[name] *)
+Definition cached_for (sf : bytes -> option (list entry)) (sc : scache) (name : bytes)
+  : scache * option (list entry) :=
+  match aget name sc with
+  | Some v => (sc, v)
+  | None => let v := sf name in (aset name v sc, v)
+  end.
+
+(* nil (no such kubernetes binding) leaves the empty array *)
+Definition entries_items (v : option (list entry)) : list item :=
+  match v with Some es => map (fun e => Raw (en_ofr e)) es | None => [] end.
+Definition entries_ids (v : option (list entry)) : list bytes :=
+  match v with Some es => map en_id es | None => [] end.
+
+(* for _, bindingName := range includeSnapshotsFrom { newBc.Snapshots[bindingName] = ... }
+   (a repeated name is written twice with the same value; the list keeps both, rendering
+   keeps one) *)
+Fixpoint fill_snapshots (sf : bytes -> option (list entry)) (sc : scache) (names : list bytes)
+  : scache * list (bytes * list item) :=
+  match names with
+  | [] => (sc, [])
+  | n :: r => let (sc1, v) := cached_for sf sc n in
+              let (sc2, rest) := fill_snapshots sf sc1 r in
+              (sc2, (n, entries_items v) :: rest)
+  end.
+
+Definition set_fresh (x : ctx) (objs : list item) (snaps : list (bytes * list item)) : ctx :=
+  mkCtx (c_btype x) (c_jq x) (c_incl x) (c_incl_all x) (c_group x) (c_binding x) (c_type x) (c_wev x)
+        objs snaps (c_areview x) (c_creview x) (c_from x) (c_to x).
+
+(* newBc.Metadata.BindingType == OnKubernetesEvent && newBc.Type == TypeSynchronization *)
+Definition is_sync (x : ctx) : bool :=
+  match c_btype x, c_type x with BKube, KSync => true | _, _ => false end.
+
+(* the body of the loop: includeSnapshotsFrom is resolved for THIS context's (type, name) *)
+Definition update_ctx (inc : btype -> bytes -> list bytes) (sf : bytes -> option (list entry))
+           (sc : scache) (x : ctx) : scache * ctx :=
+  let (sc1, snaps) := fill_snapshots sf sc (inc (c_btype x) (c_binding x)) in
+  if is_sync x then
+    let (sc2, v) := cached_for sf sc1 (c_binding x) in (sc2, set_fresh x (entries_items v) snaps)
+  else (sc1, set_fresh x (c_objects x) snaps).
+
+Fixpoint update_all (inc : btype -> bytes -> list bytes) (sf : bytes -> option (list entry))
+         (sc : scache) (xs : list ctx) : list ctx :=
+  match xs with
+  | [] => []
+  | x :: r => let (sc', x') := update_ctx inc sf sc x in x' :: update_all inc sf sc' r
+  end.
+
+(* if hc.KubernetesController == nil { return context } *)
+Definition hk_update_snapshots (hc : hcase) (xs : list ctx) : list ctx :=
+  if is_nil (hk_kube hc) then xs
+  else update_all (hk_include_from hc) (hk_snapshots_for hc (hk_evs hc)) [] xs.
+
+(* what the driver records for every item of the array: the event it stands for, the
+   ResourceIds behind its Objects and behind its Snapshots (names as in the rendered object) *)
+Record hitem := mkHitem {
+  hi_ev : N;
+  hi_ids : list bytes;
+  hi_snaps : list (bytes * list bytes) }.
+
+Record hobs := mkHobs { ho_items : list hitem; ho_out : option json }.
+
+Definition hk_item (hc : hcase) (p : nat * (list bytes * ctx)) : hitem :=
+  let x := snd (snd p) in
+  let sf := hk_snapshots_for hc (hk_evs hc) in
+  mkHitem (N.of_nat (fst p))
+          (if is_sync x && negb (is_nil (hk_kube hc)) then entries_ids (sf (c_binding x)) else fst (snd p))
+          (if is_nil (hk_kube hc) then []
+           else map (fun n => (n, entries_ids (sf n)))
+                    (canon_names (hk_include_from hc (c_btype x) (c_binding x)))).
+
+(* one execution over the combined array: Hook.Run *)
+Definition run_hook (hc : hcase) : hobs :=
+  let tagged := hk_collect hc [] (hk_evs hc) in
+  mkHobs (map (hk_item hc) tagged)
+         (render_list V1 (hk_update_snapshots hc (map (fun p => snd (snd p)) tagged))).
